@@ -87,7 +87,21 @@ func showState(m map[string][]byte) string {
 }
 
 // observe reads a directory through a fresh store of the real code.
+// observe reads the directory at file-system level (what the fs model describes) and checks that the storage API, on
+// a fresh storage object, shows exactly those files that are not temporary siblings, with the same content.
 func observe(dir string) (map[string][]byte, error) {
+	m := map[string][]byte{}
+	infos, err := os.ReadDir(dir)
+	if err != nil {
+		return nil, err
+	}
+	for _, in := range infos {
+		b, err := os.ReadFile(filepath.Join(dir, in.Name()))
+		if err != nil {
+			return nil, err
+		}
+		m[in.Name()] = b
+	}
 	st, err := util.NewFileStorage(dir)
 	if err != nil {
 		return nil, err
@@ -96,13 +110,21 @@ func observe(dir string) (map[string][]byte, error) {
 	if err != nil {
 		return nil, err
 	}
-	m := map[string][]byte{}
+	listed := map[string]bool{}
 	for _, k := range ks {
+		listed[k] = true
 		b, err := st.Get(k)
 		if err != nil {
 			return nil, fmt.Errorf("Get(%q) of a listed key: %v", k, err)
 		}
-		m[k] = b
+		if fb, ok := m[k]; !ok || !bytes.Equal(fb, b) {
+			return nil, fmt.Errorf("Get(%q) returns %x, the file holds %x", k, b, fb)
+		}
+	}
+	for n := range m {
+		if !listed[n] && !isTemp(n) {
+			return nil, fmt.Errorf("file %q is not listed as a key", n)
+		}
 	}
 	return m, nil
 }
